@@ -310,7 +310,7 @@ GAPS = [1, 2, 3, 5, 8, 1, 2, 30, 49]      # hours; some gaps are longer than a d
 
 
 def gen_events(tape, n_cons, n_events, *, strictly_increasing=None, out_of_range=True, halves=True,
-               first_push=True, future_chance=(1, 12)):
+               first_push=True, future_chance=(1, 12), refused_future_keeps_last=False):
     """interleaving of pushes (increasing times) and per-consumer pulls (non-decreasing times)"""
     strictly_increasing = strictly_increasing or [False] * n_cons
     events = []
@@ -369,6 +369,11 @@ def gen_events(tape, n_cons, n_events, *, strictly_increasing=None, out_of_range
             if last[ci] is not None and t < last[ci]:
                 continue
             events.append(["PULL", ci, t])
+            if (refused_future_keeps_last[ci] if isinstance(refused_future_keeps_last, list)
+                    else refused_future_keeps_last) and t > hi:
+                # the chain has no delay adapter: this request is refused, and a refused request is no request -
+                # the consumer goes on from its last answered one
+                continue
             if t >= pubs[0]:
                 # also after a request beyond the newest publication (a delay adapter may well serve it):
                 # request times stay non-decreasing whatever the answer was
